@@ -115,6 +115,20 @@ def tolerant_records(fmt, text, nkeys_hint=None):
         return [[(str(i + 1), v) for i, v in enumerate(l.split(" "))] for l in text.splitlines()]
 
 
+def segmented_docs(fmt, text, recs):
+    """exactly the footprint of the eviction/re-open defect: the file is the concatenation of complete documents of two or more
+    consecutive segments of the routed records (nothing lost, nothing reordered, nothing else)"""
+    def go(text, recs, nseg):
+        if not recs:
+            return text == "" and nseg >= 2
+        for j in range(1, len(recs) + 1):
+            d = single_doc(fmt, [("r", r) for r in recs[:j]])
+            if text.startswith(d) and go(text[len(d):], recs[j:], nseg + 1):
+                return True
+        return False
+    return len(recs) <= 12 and go(text, recs, 0)
+
+
 def doc_shape(fmt, text, events):
     """(headers, bracket pairs) counted in a file"""
     if fmt == "csv":
@@ -318,17 +332,15 @@ def oracle_case(ctx, c, how):
     bad = [t for t in sorted(exp) if c["after"].get(t, "") != exp[t]]
     if not bad:
         return 0
-    # classify: records all there and in order, only the document shape broken by re-open after eviction?
+    # classify: is every wrong file exactly the eviction/re-open footprint (complete documents of consecutive segments)?
     shape_only, worst = True, None
     for t in bad:
         base = before.get(t, "") if mode == "append" else ""
         text = c["after"].get(t, "")
-        body = text[len(base):] if text.startswith(base) else None
-        want = [[(k, v) for k, v in x] for kind, x in ev.get(t, []) if kind == "r"]
-        got = tolerant_records(fmt, body) if body is not None and t in ev else None
-        if fmt == "csv" and got is not None:
-            got = [r[:len(w)] if len(r) > len(w) else r for r, w in zip(got, want)] if len(got) == len(want) else got
-        if got is None or [[(k, str(v)) for k, v in r] for r in got] != want or fmt in STATELESS:
+        evs = ev.get(t, [])
+        ok_shape = (fmt in ("csv", "json") and text.startswith(base) and evs and all(k == "r" for k, _ in evs)
+                    and segmented_docs(fmt, text[len(base):], [x for _, x in evs]))
+        if not ok_shape:
             shape_only, worst = False, t
             break
         worst = worst or t
@@ -412,10 +424,11 @@ def e2e(ctx, scratch):
         if ok and wrong and not extra and not main_bad and len(expect) > CAP and fmt in ("csv", "json"):
             shape_only = True
             for t in wrong:
-                want = [[(k, v) for k, v in x] for kind, x in expect[t] if kind == "r"]
                 base = before.get(t, "") if mode == "append" else ""
-                got = tolerant_records(fmt, files.get(t, "")[len(base):])
-                if got is None or [[(k, str(v)) for k, v in r] for r in got] != want:
+                evs_t = expect.get(t, [])
+                text = files.get(t, "")
+                if not (text.startswith(base) and evs_t and all(kk == "r" for kk, _ in evs_t)
+                        and segmented_docs(fmt, text[len(base):], [x for _, x in evs_t])):
                     shape_only = False
                     break
             if shape_only:
@@ -553,7 +566,9 @@ def e2e(ctx, scratch):
 def tee_then_head(ctx, scratch):
     """tee passes every record on and keeps its file complete even when a later head stops the stream early."""
     terms = []
-    for total, n in [(3000, 1), (3000, 4), (1700, 0), (5000, 600), (10, 3)] + ([(20000, 2)] if ctx.tier == "thorough" else []):
+    # inputs of many reader batches: with a tee that forwarded the done flag the reader stops after a few batches (seen with a
+    # mutated tee.go: 7500-16000 of 20000 records reach the file), small inputs are read completely before head can signal
+    for total, n in [(3000, 1), (1700, 0), (10, 3), (30000, 1), (100000, 4)] + ([(400000, 2), (50000, 600)] if ctx.tier == "thorough" else []):
         d = os.path.join(scratch, "th%d_%d" % (total, n))
         os.makedirs(d)
         inp = "".join("i=%d,v=x\n" % i for i in range(total)).encode()
@@ -652,7 +667,7 @@ def run(ctx):
         return
     # big histories first so that the parallel shards are balanced
     order = sorted(range(len(cases)), key=lambda i: -len(cases[i]["ops"]))
-    nshards = 14
+    nshards = max(1, int(os.environ.get("VERIF_JOBS", "2")))      # parallel coqc processes
     order = [i for r in range(nshards) for i in order[r::nshards]]
     per = (len(order) + nshards - 1) // nshards
     names = ["c%d" % i for i in order]
